@@ -22,6 +22,7 @@ Generic lemmas
 * `inv_run`             an invariant of every step is an invariant of every schedule
 * `getElem?_stepAt_ne`  a step of thread `i` leaves the locals of `j ≠ i` alone
 * `quiescent_run`       a quiescent configuration is a fixpoint of every schedule
+* `mu_run_le`           under "stutter or decrease" the measure never grows along a schedule
 * `rounds_quiescent`    if every step either stutters or decreases a measure `μ`, then
                         `μ c` round-robin passes reach a quiescent configuration
                         (termination under a fair scheduler; deadlock-freedom is then
@@ -133,6 +134,21 @@ theorem quiescent_run (p : Prog σ π) (c : Cfg σ π) (h : Quiescent p c) (s : 
   induction s with
   | nil => rfl
   | cons i s ih => rw [run, h i, ih]
+
+/-- Under "stutter or decrease", the measure never grows along a schedule. -/
+theorem mu_run_le (p : Prog σ π) (Inv : Cfg σ π → Prop) (μ : Cfg σ π → Nat)
+    (hinv : ∀ c i, Inv c → Inv (stepAt p c i))
+    (hdec : ∀ c i, Inv c → stepAt p c i = c ∨ μ (stepAt p c i) < μ c) :
+    ∀ (s : Schedule) (c : Cfg σ π), Inv c → μ (run p s c) ≤ μ c := by
+  intro s
+  induction s with
+  | nil => intro c _; exact Nat.le_refl _
+  | cons j s ih =>
+    intro c hc
+    rw [run]
+    cases hdec c j hc with
+    | inl h => rw [h]; exact ih c hc
+    | inr h => exact Nat.le_trans (ih _ (hinv c j hc)) (Nat.le_of_lt h)
 
 /-- One pass either changes nothing (and then every scheduled thread stutters) or
 strictly decreases the measure. -/
